@@ -70,6 +70,8 @@ typedef struct {
     int ncut;
     size_t cut[MAXCH]; /* ascending sample offsets in (0, N) */
     unsigned char nosearch[MAXCH + 1], isfloat[MAXCH + 1], zero_before[MAXCH + 1], query[MAXCH + 1];
+    size_t fullutt_len; /* > 0: the first fullutt_len samples as ONE full-utterance call; only the number of frames is compared, with a
+                           one-call streaming run of the same samples (full-utterance mode normalises differently by design) */
     size_t uniform; /* > 0: the whole utterance in equal chunks of this many samples (modifiers of chunk 0 apply to all; a query follows every 16th chunk) */
 } plan_t;
 
@@ -80,6 +82,10 @@ plan_desc(const plan_t *p, char *buf, size_t n)
     int i;
     if (p->uniform) {
         snprintf(buf + o, n - o, " uniform=%zu%s%s", p->uniform, p->isfloat[0] ? ":float" : "", p->query[0] & Q_HYP ? ":hyp" : "");
+        return;
+    }
+    if (p->fullutt_len) {
+        snprintf(buf + o, n - o, " fullutt=%zu%s", p->fullutt_len, p->isfloat[0] ? ":float" : "");
         return;
     }
     for (i = 0; i <= p->ncut; i++) {
@@ -99,6 +105,11 @@ plan_parse(const char *s, plan_t *p)
     if (!q)
         return -1;
     q += 5;
+    if (strncmp(q, " fullutt=", 9) == 0) {
+        p->fullutt_len = (size_t)atol(q + 9);
+        p->isfloat[0] = strstr(q, ":float") != NULL;
+        return p->fullutt_len > 0 ? 0 : -1;
+    }
     if (strncmp(q, " uniform=", 9) == 0) {
         p->uniform = (size_t)atol(q + 9);
         p->isfloat[0] = strstr(q, ":float") != NULL;
@@ -309,6 +320,37 @@ countfail:
 
 static digest_t REF;
 
+/* frames searched for the first L samples: one streaming call against one full-utterance call */
+static int
+run_fullutt(const plan_t *p, const char *cd)
+{
+    size_t L = p->fullutt_len;
+    int k, nf[2], fr[2];
+    for (k = 0; k < 2; k++) {
+        int rc;
+        if (decoder_set_cmn(D, CMN_FIXED) < 0 || decoder_start_utt(D) < 0) {
+            mc_viol("C07/start-failed", cd, "could not start the utterance");
+            return -1;
+        }
+        NFEAT_HASH = 0;
+        RECORD_FEAT = 1;
+        rc = p->isfloat[0] ? decoder_process_float32(D, AUDF, L, 0, k) : decoder_process_int16(D, AUD, L, 0, k);
+        if (rc < 0 || decoder_end_utt(D) < 0) {
+            mc_viol("C07/process-failed", cd, "%s processing of %zu samples failed", k ? "full-utterance" : "streaming", L);
+            return -1;
+        }
+        RECORD_FEAT = 0;
+        nf[k] = NFEAT_HASH;
+        fr[k] = decoder_n_frames(D);
+    }
+    if (nf[0] != nf[1] || fr[0] != fr[1]) {
+        mc_viol("C07/number-of-frames-searched-differs", cd, "%zu samples: %d frames searched in one streaming call (decoder_n_frames %d), %d in one full-utterance call (%d)",
+                L, nf[0], fr[0], nf[1], fr[1]);
+        return -1;
+    }
+    return 1;
+}
+
 static int
 compare(const digest_t *g, const char *cd)
 {
@@ -447,6 +489,8 @@ run_index(long long idx, void *arg)
     plan_desc(&PLANS[idx], cd, sizeof cd);
     CUR_IDX = idx;
     mc_case_begin(idx, cd);
+    if (PLANS[idx].fullutt_len)
+        return run_fullutt(&PLANS[idx], cd);
     if (run_plan(&PLANS[idx], &g, cd) < 0)
         return -1;
     if (P_C03) {
@@ -530,7 +574,9 @@ main(int argc, char **argv)
         if (plan_parse(cas, &p) < 0)
             return 2;
         mc_set_current(cas);
-        if (run_plan(&p, &g, cas) == 0 && !P_C03)
+        if (p.fullutt_len)
+            run_fullutt(&p, cas);
+        else if (run_plan(&p, &g, cas) == 0 && !P_C03)
             compare(&g, cas);
         unlink(DICT_PATH);
         mc_finish();
@@ -564,6 +610,19 @@ main(int argc, char **argv)
             e.cut[0] = c;
             add_plan(&e);
         }
+    }
+    if (atoi(mc_arg(argc, argv, "--fullutt", "0"))) {
+        /* every length in the last 170 samples: every remainder of the length modulo the frame shift */
+        size_t L;
+        int v;
+        for (L = N > 170 ? N - 170 : 1; L <= N; L++)
+            for (v = 0; v < 2; v++) {
+                plan_t e;
+                memset(&e, 0, sizeof e);
+                e.fullutt_len = L;
+                e.isfloat[0] = v;
+                add_plan(&e);
+            }
     }
     if (atoi(mc_arg(argc, argv, "--uniform", "0"))) {
         static const size_t sizes[] = { 1, 80, 159, 160, 161, 320, 400, 512, 1024, 2048, 4096, 8192 };
